@@ -28,6 +28,13 @@ fn main() {
             }
             0
         }
+        Some("--worker") => {
+            // --worker <ID> <tier> <seed> <index> <cases>
+            let (Some(id), Some(tier), Some(seed), Some(index), Some(per)) = (args.get(1), args.get(2), args.get(3), args.get(4), args.get(5)) else { usage() };
+            let tier = if tier == "thorough" { Tier::Thorough } else { Tier::Quick };
+            let Some(p) = props.iter().find(|p| p.id() == id) else { usage() };
+            worker_main(p.as_ref(), tier, seed.parse().unwrap_or(0), index.parse().unwrap_or(0), per.parse().unwrap_or(0))
+        }
         Some("--replay") => {
             let Some(f) = args.get(1) else { usage() };
             replay_file(&props, Path::new(f))
